@@ -152,6 +152,15 @@ def handle (cmd : String) (args : List String) : Option String :=
   | "lt", [cps, m] => do
     let cps ← parseCps? cps; let m ← parseMapping? m
     pure (withBuilt m fun b => showOpts (cps.map (cmapMap b.subtables)))
+  -- skrifa Charmap on the built table (selection + notdef filtering + cmap12 limits)
+  | "lc", [cps, m] => do
+    let cps ← parseCps? cps; let m ← parseMapping? m
+    pure (withBuilt m fun b => showOpts (cps.map b.skMap))
+  | "ic", [ng, m] => do
+    let ng ← parseNats? ng; let m ← parseMapping? m
+    match ng with
+    | [n] => pure (withBuilt m fun b => showPairs (b.skMappings (0x10FFFF, n)))
+    | _ => none
   | "i4", [m] => do
     let m ← parseMapping? m
     pure (withBuilt m fun b => match b.fmt4 with | none => "none" | some t => showPairs (iter4 t))
